@@ -12,6 +12,11 @@ def expected_err(prog, part, h, plan):
     """Description (errs.rs `describe`) of the error the caller must receive."""
     E = prog["error"]  # part error == contract error (sylvia requires it)
     own_is_std = (h["ret_err"] == "std") or E == "StdError"
+    if h.get("ret_err") == "lookup":
+        # the handler's own error type, converted by its From impl into the contract's error
+        if "err_own" in plan:
+            return {"ty": "MonErr", "lookup": {"ty": "LookupErr", "code": plan["err_own"]}}
+        return {"ty": "MonErr", "lookup": {"ty": "LookupErr", "text": plan["err_std"]}}
     if "err_own" in plan:
         code = plan["err_own"]
         if E == "StdError":
